@@ -15,7 +15,9 @@ From Coq Require Import Init.Byte.
 From FFS Require Import Base.Res Base.Bytes Abi.Types AbiType.Syntax AbiType.Spec AbiType.Model AbiType.Abs
   AbiType.ProofsDec AbiType.ProofsMain AbiType.Run AbiType.ProofsOracle
   AbiType.ProofsArr AbiType.ProofsDims AbiType.ProofsNormal AbiType.ModelSig AbiType.ProofsSig
-  AbiType.ModelCache AbiType.ProofsCache.
+  AbiType.ModelCache AbiType.ProofsCache
+  AbiType.ModelCacheEntry AbiType.ProofsCacheEntry
+  AbiType.ProofsReferee AbiType.ModelNil AbiType.ProofsNil AbiType.ModelIdx AbiType.ProofsIdx.
 Import ListNotations.
 
 (* 1. Validation never panics (and the model never runs out of fuel): any bytes as type text, any
@@ -318,4 +320,223 @@ Example C13_nonvacuous_edit :
 Proof.
   eexists. eexists. eexists. split; [vm_compute; reflexivity|]. split; [vm_compute; reflexivity|].
   cbv zeta. split; [vm_compute; reflexivity|]. split; vm_compute; reflexivity.
+Qed.
+
+(* ====================================================================================================
+   Answers to the referee report (design/reviews/C13.md); see design/C13.md "Referee report and answers".
+   ==================================================================================================== *)
+
+(* 11. (I5) Whole ABI documents.  [abi_params a]: every parameter of the document in the order ABI.Validate
+      visits them (entries in order, inputs before outputs).  Validation succeeds exactly when every one of
+      them is accepted, i.e. spells a valid type of the grammar ... *)
+Theorem C13_abi_validate_accept_iff :
+  forall a : list entry,
+    (ABIValidate a = Ok tt <-> Forall accepted (abi_params a)) /\
+    (ABIValidate a = Ok tt <-> Forall in_grammar (abi_params a)).
+Proof. exact abi_validate_accept_iff. Qed.
+Print Assumptions C13_abi_validate_accept_iff.
+
+(* 11b. ... and otherwise reports the error of the FIRST refused parameter in that order (never a panic, never
+      out of fuel); Entry.Validate is the same over its own parameters. *)
+Theorem C13_abi_validate_first_error :
+  (forall a : list entry,
+     (forall e, ABIValidate a = Err e <->
+        exists pre p post, abi_params a = pre ++ p :: post /\ Forall accepted pre /\ Validate p = Err e) /\
+     (ABIValidate a = Ok tt \/ exists e, ABIValidate a = Err e /\ e <> EOutOfFuel)) /\
+  (forall e : entry, EntryValidate e = ABIValidate [e]) /\
+  (forall p : param, accepted p <-> in_grammar p).
+Proof.
+  split; [exact abi_validate_first_error|]. split; [|exact accepted_iff_grammar].
+  intros e. cbn [ABIValidate]. destruct (EntryValidate e) as [[]| |]; reflexivity.
+Qed.
+Print Assumptions C13_abi_validate_first_error.
+
+(* 12. (I3) The last clause of the property read LITERALLY -- "parsing the rendered signature again yields the
+      same tree" -- is FALSE for every type with a tuple on its array spine: the signature starts with '(' and
+      is refused as a type text, whatever the components.  (4b is the tuple-free half; 4 / 8 use the normal
+      form instead.) *)
+Theorem C13_reparse_signature_tuple_refused :
+  forall tc, tuple_free tc = false ->
+    exists sig, tc_string tc = Ok sig /\ forall comps, Validate (Param sig comps) = Err EUnsupportedType.
+Proof. exact reparse_signature_tuple_refused. Qed.
+Print Assumptions C13_reparse_signature_tuple_refused.
+
+(* 12b. Both halves: for an accepted type the rendered signature re-parses to the identical tree exactly when
+      the type is tuple-free, and is refused exactly when it is not. *)
+Theorem C13_reparse_signature_iff :
+  forall p tc, Validate p = Ok tc ->
+    exists sig, tc_string tc = Ok sig /\
+      ((forall comps, Validate (Param sig comps) = Ok tc) <-> tuple_free tc = true) /\
+      ((forall comps, Validate (Param sig comps) = Err EUnsupportedType) <-> tuple_free tc = false).
+Proof. exact reparse_signature_iff. Qed.
+Print Assumptions C13_reparse_signature_iff.
+
+(* 13. (I2) Nil pointers (AbiType/ModelNil.v: components / list members may be a nil Parameter pointer, entries a
+      nil Entry pointer, with the dereference explicit).  The objects without nil at any depth are exactly the
+      images of the pure syntax, and on them the nullable model IS the pure model -- so clause 1 holds under
+      the hypothesis "no nil at any depth", stated here ... *)
+Theorem C13_nil_free_is_pure_model :
+  (forall p : param, ValidateN (embed p) = Validate p) /\
+  (forall a : list entry, ABIValidateN (map embed_entry a) = ABIValidate a) /\
+  (forall q : nparam, nil_free q = true <-> exists p, q = embed p).
+Proof. split; [exact parseN_embed|]. split; [exact abi_validateN_embed|exact nil_free_is_embed]. Qed.
+Print Assumptions C13_nil_free_is_pure_model.
+
+Theorem C13_nil_free_total :
+  (forall q : nparam, nil_free q = true ->
+     (exists p, q = embed p /\ ValidateN q = Validate p) /\
+     ValidateN q <> Panic /\ ValidateN q <> Err EOutOfFuel) /\
+  (forall a : list (option nentry), forallb nil_free_entry a = true ->
+     (exists a', a = map embed_entry a' /\ ABIValidateN a = ABIValidate a') /\
+     ABIValidateN a <> Panic /\ ABIValidateN a <> Err EOutOfFuel).
+Proof. split; [exact validateN_nil_free|exact abi_validateN_nil_free]. Qed.
+Print Assumptions C13_nil_free_total.
+
+(* 13b. ... and the hypothesis cannot be dropped: a nil member reached by the member loop of a tuple, a nil
+      parameter of an entry and a nil entry PANIC (as the Go code does; the harness runs these ten objects on
+      the implementation every time); a nil that is not dereferenced does no harm. *)
+Theorem C13_nil_refuted :
+  (ValidateN NNil = Panic /\
+   ValidateN (NParam (T "tuple") [NNil]) = Panic /\
+   ValidateN (NParam (T "tuple[2]") [NParam (T "uint8") []; NParam (T "tuple") [NNil]]) = Panic /\
+   ABIValidateN [None] = Panic /\
+   ABIValidateN [Some (NEntry [NNil] [])] = Panic /\
+   ABIValidateN [Some (NEntry [] [NParam (T "tuple") [NNil]])] = Panic) /\
+  (is_ok (ValidateN (NParam (T "uint256") [NNil])) = true /\
+   is_err (ValidateN (NParam (T "tuple7") [NNil])) = true /\
+   is_err (ValidateN (NParam (T "tuple") [NParam (T "uint7") []; NNil])) = true /\
+   is_err (ABIValidateN [Some (NEntry [NParam (T "uint7") []] []); None]) = true).
+Proof. split; [exact nil_panics|exact nil_not_reached]. Qed.
+Print Assumptions C13_nil_refuted.
+
+(* 14. (I1) Every partial operation explicit (AbiType/ModelIdx.v: each index read s[pos] is a bounds-checked
+      read, the remainder m % mMod panics on a zero divisor, slices as before; loop guards and short-circuits
+      as in the Go source).  That transcription computes exactly the functions of Model.v, function by
+      function and for the whole parser -- so the `<> Panic` of C13_total covers every index read, slice and
+      remainder of the parser, not only the two slices Model.v keeps explicit. *)
+Theorem C13_index_explicit_parser :
+  (forall s pos, splitElementaryTypeSuffix_idx s pos = Ok (splitElementaryTypeSuffix s pos)) /\
+  (forall et suffix, parseMSuffix_idx et suffix = parseMSuffix et suffix) /\
+  (forall et suffix, parseMxNSuffix_idx et suffix = parseMxNSuffix et suffix) /\
+  (forall fuel child suffix, parseArrays_idx fuel child suffix = parseArrays fuel child suffix) /\
+  (forall p : param, parse_idx p = Validate p) /\
+  (forall p : param, parse_idx p <> Panic /\ parse_idx p <> Err EOutOfFuel).
+Proof.
+  split; [exact splitElementaryTypeSuffix_idx_eq|]. split; [exact parseMSuffix_idx_eq|].
+  split; [exact parseMxNSuffix_idx_eq|]. split; [exact parseArrays_idx_eq|].
+  split; [exact parse_idx_eq|exact parse_idx_total].
+Qed.
+Print Assumptions C13_index_explicit_parser.
+
+(* 14b. The partial operations of that transcription do panic when misused -- what the loop guards, the
+      guard  pos >= len(suffix)-1  and the test  mMod != 0  prevent. *)
+Theorem C13_partial_operations_can_panic :
+  index (T "8") 1 = Panic /\
+  mod_go 8 0 = Panic /\
+  slice_from (T "8") (length (until ch_x (T "8")) + 1) = Panic /\
+  match lookup_et (T "fixed") with
+  | Some et => parseMxNSuffix_idx et (T "8") = Err EInvalidSuffix
+  | None => False
+  end.
+Proof. exact idx_operations_can_panic. Qed.
+Print Assumptions C13_partial_operations_can_panic.
+
+(* ---------- non-vacuity of 11 - 14 and the gaps the referee listed ---------- *)
+
+(* a document that is accepted, and one whose FIRST refused parameter (an output of the first entry) decides
+   the error although a later entry is refused differently *)
+Example C13_nonvacuous_abi :
+  ABIValidate [Entry [Param (T "address") []; ex_param] [Param (T "bool") []]; Entry [] []] = Ok tt /\
+  abi_params [Entry [Param (T "address") []] [Param (T "uint7") []]; Entry [Param (T "tuple7") []] []] =
+    [Param (T "address") []; Param (T "uint7") []; Param (T "tuple7") []] /\
+  ABIValidate [Entry [Param (T "address") []] [Param (T "uint7") []]; Entry [Param (T "tuple7") []] []] =
+    Err EInvalidSuffix /\
+  Validate (Param (T "uint7") []) = Err EInvalidSuffix /\
+  Validate (Param (T "tuple7") []) = Err EUnsupportedSuffix.
+Proof. repeat split; vm_compute; reflexivity. Qed.
+
+(* the signature of ex_param (a tuple array) is refused as a type text *)
+Example C13_nonvacuous_tuple_signature_refused :
+  exists tc, Validate ex_param = Ok tc /\ tuple_free tc = false /\
+    tc_string tc = Ok (T "(uint256,fixed128x18[3],(bytes32,string[]))[2][]") /\
+    Validate (Param (T "(uint256,fixed128x18[3],(bytes32,string[]))[2][]") (p_comps ex_param)) =
+      Err EUnsupportedType.
+Proof. eexists. split; [vm_compute; reflexivity|]. repeat split; vm_compute; reflexivity. Qed.
+
+(* C13_normal_form_members with a non-trivial top-level tuple (alias member, nested tuple) *)
+Example C13_nonvacuous_normal_form_members :
+  exists cs, Validate (Param (T "tuple") [Param (T "int") []; Param (T "tuple[]") [Param (T "ufixed") []]]) = Ok (CTuple cs) /\
+    ty_of (CTuple cs) = Some (TTuple [TInt 256; TDynArr (TTuple [TUFixed 128 18])]) /\
+    length cs = 2%nat /\
+    map canonical_param [TInt 256; TDynArr (TTuple [TUFixed 128 18])] =
+      [Param (T "int256") []; Param (T "tuple[]") [Param (T "ufixed128x18") []]].
+Proof. eexists. split; [vm_compute; reflexivity|]. repeat split; vm_compute; reflexivity. Qed.
+
+(* M out of range for fixed / ufixed (the reject list above had only N out of range) *)
+Example C13_nonvacuous_reject_fixed_M :
+  forallb (fun s => is_err (Validate (Param (T s) [])))
+    ["fixed7x18"; "fixed264x18"; "fixed0x18"; "ufixed12x18"; "ufixed264x0"; "fixed256x81"; "fixed8"; "fixedx18"]%string = true /\
+  forallb (fun s => is_ok (Validate (Param (T s) [])))
+    ["fixed8x1"; "fixed256x80"; "ufixed8x80"; "ufixed256x1"]%string = true.
+Proof. split; vm_compute; reflexivity. Qed.
+
+(* 15. (I7) parseArrayM stores the length as  int(val) ; the model keeps it in N.  Every fixed length in an
+      accepted tree is < 2^32, so the conversion is exact when Go's  int  has 64 bits (declared platform
+      assumption, props/C13.json); it is not always < 2^31: with a 32-bit int the lengths 2^31 .. 2^32-1
+      would wrap and clauses 4-5 would fail there.  [tc_lengths_lt b tc]: every fixed array length in tc,
+      at every depth, is < b. *)
+Theorem C13_array_lengths_fit_int :
+  (forall p tc, Validate p = Ok tc -> tc_lengths_lt (2 ^ 32) tc = true) /\
+  (exists tc, Validate (Param (T "uint8[2147483648]") []) = Ok tc /\ tc_lengths_lt (2 ^ 31) tc = false).
+Proof. split; [exact accepted_lengths_fit_int64|exact accepted_lengths_exceed_int32]. Qed.
+Print Assumptions C13_array_lengths_fit_int.
+
+(* 16. (I4) Entry.Validate / Entry.Signature over parameter OBJECTS with a history (AbiType/ModelCacheEntry.v;
+      both go through the caches in the Go code).  Entry.Validate answers as the pure Entry.Validate of the
+      CURRENT definitions and keeps them; after a successful one, Entry.Signature and the list views of the
+      inputs and of the outputs answer for the current definitions.  The loop validates a prefix and leaves
+      the rest untouched.  (Like 10a-c these are statements about the MODEL's bookkeeping; that the Go code
+      behaves so is what the edit sessions of the harness test.) *)
+Theorem C13_entry_validate_after_edit :
+  (forall (name : bytes) (i o : list pobj),
+     let r := snd (EntryValidateObj i o) in
+     let i' := fst (fst (EntryValidateObj i o)) in
+     let o' := snd (fst (EntryValidateObj i o)) in
+     r = EntryValidate (Entry (map erase i) (map erase o)) /\
+     map erase i' = map erase i /\ map erase o' = map erase o /\
+     (r = Ok tt ->
+        EntrySignatureObj name i' = EntrySignature name (map erase i) /\
+        ParameterArrayTreeObj i' = ParameterArrayTree (map erase i) /\
+        ParameterArrayTreeObj o' = ParameterArrayTree (map erase o))) /\
+  (forall l : list pobj,
+     snd (validate_objs l) = validate_params (map erase l) /\
+     map erase (fst (validate_objs l)) = map erase l /\
+     (exists n, fst (validate_objs l) = map (fun o => fst (ValidateObj o)) (firstn n l) ++ skipn n l) /\
+     (snd (validate_objs l) = Ok tt -> Forall fresh (fst (validate_objs l)))).
+Proof. split; [exact entry_validate_obj_spec|exact validate_objs_spec]. Qed.
+Print Assumptions C13_entry_validate_after_edit.
+
+(* 16b. What is NOT promised, by witness: a REFUSED Entry.Validate returns at the first refused parameter; the
+      outputs were not validated again and their list view still answers (successfully) for a definition
+      they no longer have. *)
+Theorem C13_entry_stale_refuted :
+  let o' := snd (fst (EntryValidateObj ex_entry_inputs ex_entry_outputs)) in
+  is_err (snd (EntryValidateObj ex_entry_inputs ex_entry_outputs)) = true /\
+  o' = ex_entry_outputs /\
+  ParameterArrayTreeObj o' <> ParameterArrayTree (map erase ex_entry_outputs) /\
+  is_ok (ParameterArrayTreeObj o') = true /\ is_ok (ParameterArrayTree (map erase ex_entry_outputs)) = true.
+Proof. exact entry_validate_refused_leaves_stale. Qed.
+Print Assumptions C13_entry_stale_refuted.
+
+(* objects with stale caches at two depths as inputs and outputs: accepted, signature for the current text *)
+Example C13_nonvacuous_entry_edit :
+  exists stale_u256,
+    Validate (Param (T "uint256") []) = Ok stale_u256 /\
+    let i := [PObj (T "tuple") [PObj (T "uint8") [] (Some stale_u256)] (Some stale_u256); PObj (T "bool") [] None] in
+    let o := [PObj (T "string") [] (Some stale_u256)] in
+    snd (EntryValidateObj i o) = Ok tt /\
+    EntrySignatureObj (T "f") (fst (fst (EntryValidateObj i o))) = Ok (T "f((uint8),bool)") /\
+    EntrySignatureObj (T "f") i = Ok (T "f(uint256,bool)").
+Proof.
+  eexists. split; [vm_compute; reflexivity|]. cbv zeta. repeat split; vm_compute; reflexivity.
 Qed.
